@@ -279,6 +279,11 @@ def stream_history(rng, objs, use_pipe):
                 t.tree_sequence().dump(wf)
             else:
                 t.dump(wf)
+            if wf.closed:      # the stream is the caller's: a dump must leave it open for the next store
+                ops.append(dict(op="dump", obj=i, size=0, wpos=0, closed=1))
+                if use_pipe:
+                    rf.close()
+                return ops
             wf.flush()
             if use_pipe:
                 # size of this object measured separately on a file
@@ -290,7 +295,7 @@ def stream_history(rng, objs, use_pipe):
             else:
                 wpos = wf.tell()
             sizes.append(wpos - sum(sizes))
-            ops.append(dict(op="dump", obj=i, size=sizes[-1], wpos=wpos))
+            ops.append(dict(op="dump", obj=i, size=sizes[-1], wpos=wpos, closed=0))
         wf.close()
         if not use_pipe:
             rf = open(path, "rb")
